@@ -2,7 +2,7 @@ import sys
 from pgsa import extract, core, rules5
 p,_,_ = extract.extract('all')
 F = core.Facts(p)
-names = sys.argv[1:] or ["rank_increment","simple_paths_min","dominators_root","close_only_popped","visitor_then_mark","none_after_some","dir_param_index","filter_flag","graphmap_incoming_mirror","nodes_before_edges","float_overflow_table","search_contract"]
+names = sys.argv[1:] or ["rank_increment","simple_paths_min","dominators_root","close_only_popped","visitor_then_mark","none_after_some","dir_param_index","filter_flag","graphmap_incoming_mirror","nodes_before_edges","float_overflow_table","search_contract","matrix_edges_table"]
 for n in names:
     r = getattr(rules5,n)(F)
     r.check_floor() if hasattr(r,"check_floor") else None
